@@ -327,8 +327,73 @@ func c19Workload(e *Env, n int, label string) c19Stats {
 	return st
 }
 
+// firstCallScenario performs a short SEQUENTIAL history whose first operation is the first registry
+// call of the whole process, on the names of the built-in services, and judges it against the
+// sequential model started from "the four built-ins are registered" (what start-up promises).
+func firstCallScenario(k int) (steps []string, bad string) {
+	type op struct {
+		kind, name string
+		own        bool
+	}
+	scen := [][]op{
+		{{"Clear", "", false}, {"Get", "CRC32", false}, {"Get", "SSE_BIN", false}, {"Registry", "CRC32", true}, {"Get", "CRC32", false}},
+		{{"Remove", "CRC32", false}, {"Registry", "CRC32", true}, {"Get", "CRC32", false}, {"Get", "CRC16", false}},
+		{{"Get", "SZSE_BIN", false}, {"Registry", "SZSE_BIN", true}, {"Remove", "SZSE_BIN", false}, {"Registry", "SZSE_BIN", true}, {"Get", "SZSE_BIN", false}},
+		{{"Registry", "CRC16", true}, {"Get", "CRC16", false}, {"Clear", "", false}, {"Get", "CRC16", false}},
+		{{"Remove", "SSE_BIN", false}, {"Get", "SSE_BIN", false}, {"Get", "CRC32", false}, {"Clear", "", false}, {"Get", "CRC32", false}},
+	}[k%5]
+	model := map[string]int64{"CRC16": -1, "CRC32": -1, "SSE_BIN": -1, "SZSE_BIN": -1} // -1 = a built-in service
+	next := int64(100)
+	for i, o := range scen {
+		var got, want string
+		switch o.kind {
+		case "Clear":
+			codec.Clear()
+			model = map[string]int64{}
+		case "Remove":
+			codec.Remove(o.name)
+			delete(model, o.name)
+		case "Registry":
+			next++
+			ok := codec.Registry(&svc{name: o.name, id: next})
+			_, present := model[o.name]
+			if !present {
+				model[o.name] = next
+			}
+			got, want = fmt.Sprint(ok), fmt.Sprint(!present)
+		case "Get":
+			s, ok := codec.Get(o.name)
+			id := int64(0)
+			if ok {
+				id = -1
+				if h, isH := s.(*svc); isH {
+					id = h.id
+				}
+			}
+			got, want = fmt.Sprint(id), fmt.Sprint(model[o.name])
+		}
+		steps = append(steps, fmt.Sprintf("%s(%s)->%s", o.kind, o.name, got))
+		if got != want && bad == "" {
+			bad = fmt.Sprintf("step %d %s(%s): observed %s, the sequential model started from the four built-ins says %s", i, o.kind, o.name, got, want)
+		}
+	}
+	return
+}
+
 func c19(e *Env) {
 	r := e.R
+	if len(e.Args) > 1 && e.Args[0] == "firstcall-child" {
+		k := 0
+		fmt.Sscan(e.Args[1], &k)
+		steps, bad := firstCallScenario(k)
+		r.Evals(1)
+		r.DistinctAdd(1)
+		r.Sample(map[string]any{"first_calls_of_a_fresh_process": steps, "verdict": map[bool]string{true: "explained by the sequential model", false: bad}[bad == ""]})
+		if bad != "" {
+			r.Violate(fmt.Sprintf("C19/first-calls-of-a-process-not-explained/scenario%d", k), "C19/first-calls-of-a-process-not-explained", map[string]any{"scenario": k, "history": steps, "problem": bad})
+		}
+		return
+	}
 	if len(e.Args) > 0 && (e.Args[0] == "race-child" || e.Args[0] == "plain-child") {
 		n := e.N(3000, 50000)
 		label := "plain"
@@ -344,7 +409,7 @@ func c19(e *Env) {
 		}
 		return
 	}
-	r.Rule("short concurrent histories against the real registry: shape A = 6 goroutines × 5 operations on 2 algorithm names, mix 45% Registry / 25% Get / 25% Remove / 5% Clear; shape B (every 5th) = 12 goroutines all registering the same fresh name at once, then looking it up; goroutines are released by a busy-wait barrier so calls genuinely overlap, with private random jitter between (never inside) calls; every registered service carries a unique id so that a look-up identifies the registration it saw; one sequential Get per name is appended after the goroutines have joined. Histories are recorded at the client boundary into per-goroutine slices with one monotonic clock (no shared recorder state inside the measured region). The workload runs in its own child process (it clears the built-in services; a runtime 'concurrent map' abort must not take the monitor down), once in a plain build and once in a -race build. distinct_nontrivial = histories with at least one real-time overlap between calls of different goroutines")
+	r.Rule("short concurrent histories against the real registry: shape A = 6 goroutines × 5 operations on 2 algorithm names, mix 45% Registry / 25% Get / 25% Remove / 5% Clear; shape B (every 5th) = 12 goroutines all registering the same fresh name at once, then looking it up; goroutines are released by a busy-wait barrier so calls genuinely overlap, with private random jitter between (never inside) calls; every registered service carries a unique id so that a look-up identifies the registration it saw; one sequential Get per name is appended after the goroutines have joined. Histories are recorded at the client boundary into per-goroutine slices with one monotonic clock (no shared recorder state inside the measured region). The workload runs in its own child process (it clears the built-in services; a runtime 'concurrent map' abort must not take the monitor down), once in a plain build and once in a -race build; plus five fresh processes whose very first registry calls are Clear / Remove / Registry / Get on the names of the built-in services (sequential, judged against the model started from the four built-ins). distinct_nontrivial = histories with at least one real-time overlap between calls of different goroutines")
 	r.Explain("Oracle 1: porcupine v1.3.0 linearizability check of every recorded history against a 25-line sequential map model (Registry succeeds iff the name is absent; Get returns the current registration or absent; Remove; Clear), unpartitioned because Clear spans names; checker timeout 10 s per history ⇒ inconclusive, never a violation. Oracle 2: Go race detector on the same workload (reports counted from the log), and the runtime's own 'concurrent map read and map write' abort. Oracle 3: the quiescent final Gets must be explained by the same linearization (a lost or duplicated insert nobody happened to read is still caught); shape B additionally asserts exactly one winner that the later look-up returns. A Get that returns a service whose own name differs from the name asked for can never be explained.")
 	r.Assume("linearizability is decided for the histories recorded, not for all interleavings", "the race detector judges only the accesses the workload performed")
 	runBuild := func(bin, mode, label string) {
@@ -357,7 +422,7 @@ func c19(e *Env) {
 		for _, f := range globLogs(logBase) {
 			os.Remove(f)
 		}
-		cmd := exec.Command(bin, "C19", "--tier", e.Tier, "--seed", fmt.Sprint(e.Seed), mode)
+		cmd := exec.Command(bin, append([]string{"C19", "--tier", e.Tier, "--seed", fmt.Sprint(e.Seed)}, strings.Fields(mode)...)...)
 		cmd.Env = append(os.Environ(), "VERIF_CHILD=1", "GORACE=halt_on_error=0 log_path="+logBase+"/race")
 		out, err := cmd.CombinedOutput()
 		races := 0
@@ -418,4 +483,8 @@ func c19(e *Env) {
 	}
 	runBuild(os.Getenv("VERIF_BIN"), "plain-child", "plain_build")
 	runBuild(os.Getenv("VERIF_BIN_RACE"), "race-child", "race_build")
+	// fresh processes whose very first registry calls are Clear / Remove / Registry / Get on the built-in names
+	for k := 0; k < 5; k++ {
+		runBuild(os.Getenv("VERIF_BIN"), fmt.Sprintf("firstcall-child %d", k), fmt.Sprintf("first_calls_scenario_%d", k))
+	}
 }
